@@ -108,7 +108,7 @@ def run(prog, rep, tier, repo):
         v = c.args[1]
         if tag(v) == 'field' and tag(v[1]) == 'downcast' and v[1][1] == mode:
             fills[v[2]] = c
-        elif any(tag(z) == 'local' for z in subterms(v)):
+        elif any(tag(z) == 'local' or z in bounds for z in subterms(v)):      # mentions the bracket index (counter or counting call)
             inrange.append(c)
         else:
             extrap.append(c)
@@ -237,6 +237,67 @@ def run(prog, rep, tier, repo):
         else:
             rep.ok('checked', key, 'length assert and adjacent-pair ordering loop dominate the unchecked call')
     rep.floor('checked', 1, 'interp1d_linear')
+    # ------------------------------------------------------------------ D6 bracketing count
+    # The bracket index must be the number of knots among x[0..n-1] that are <= the target: then idx == 0 iff tgt < x[0] (a target equal
+    # to the first knot is in range) and x[idx-1] <= tgt < x[idx].  Recognised: a counting scan that stops at the first knot > tgt, or
+    # partition_point over x[..n-1] with that predicate.
+    key = 'bracket:%s' % short(K)
+    verdicts = []
+
+    def classify(cn, v, knot_is, tgt_is):
+        # returns 'le' when (cn is v) <=> knot <= target, 'lt' when knot < target, None otherwise
+        if tag(cn) != 'bin' or cn[4] not in ('f64', 'f32') or not isinstance(v, bool):
+            return None
+        op, a, b = cn[1], cn[2], cn[3]
+        if knot_is(a) and tgt_is(b):
+            pass
+        elif knot_is(b) and tgt_is(a):
+            op = {'Gt': 'Lt', 'Ge': 'Le', 'Lt': 'Gt', 'Le': 'Ge'}.get(op)
+        else:
+            return None
+        # now: knot op target is v
+        if (op, v) in (('Le', True), ('Gt', False)):
+            return 'le'
+        if (op, v) in (('Lt', True), ('Ge', False)):
+            return 'lt'
+        return 'other'
+    # (A) counting scans
+    for li in f.loop_info():
+        if li['item'] is None:
+            continue
+        j = li['item']
+        incs = [st for st in f.stores() if st.bb in li['blocks'] and tag(st.target) == 'local' and st.value == ('bin', 'Add', st.target, ('const', 'usize', 1), 'usize')]
+        if len(incs) != 1:
+            continue
+        exits = [(cn, v) for s_, d_, cn, v in f.edge_conditions() if s_ in li['blocks'] and d_ not in li['blocks'] and not (tag(cn) == 'discr')]
+        for cn, v in exits:
+            # leaving means "knot > target"; staying (counting) means its negation
+            c = classify(cn, (not v), lambda t: tag(t) == 'index' and t[1] == x and t[2] == j, lambda t: tag(t) == 'index' and t[1] == tgt)
+            if c is not None:
+                verdicts.append(('scan', c, show(cn)[:50], v))
+    # (B) partition_point
+    for c in f.calls():
+        if c.path and short(c.path) == 'partition_point' and tag(c.args[1]) == 'agg' and c.args[1][1] == 'closure':
+            g = prog.func(c.args[1][2])
+            caps = c.args[1][3]
+            rv = g.return_values()
+            xj = ('arg', 2, g.names.get(2))
+            if len(rv) == 1:
+                def tgt_is(t, caps=caps):
+                    return tag(t) == 'index' and tag(t[1]) == 'upvar' and t[1][1] < len(caps) and caps[t[1][1]] == tgt
+                cl = classify(rv[0], True, lambda t: t == xj or (tag(t) == 'deref' and t[1] == xj), tgt_is)
+                verdicts.append(('partition_point', cl or 'other', show(rv[0])[:50], True))
+    if not verdicts:
+        rep.undecided('bracket', key, 'no bracketing scan / partition_point recognised', site_of(f.body), proof=False)
+    else:
+        bad = [vd for vd in verdicts if vd[1] != 'le']
+        if bad:
+            rep.viol('bracket', key, 'the bracket index counts knots with %s: a target equal to a knot is then bracketed one segment to the left, and a target '
+                     'equal to x[0] is treated as out of range (Panic mode panics, Fill returns the left fill value) [%s %s]' % (
+                         'x[j] < target' if bad[0][1] == 'lt' else 'a different predicate', bad[0][0], bad[0][2]), site_of(f.body))
+        else:
+            rep.ok('bracket', key, 'bracket index = #{j < n-1 : x[j] <= target} (%s)' % ', '.join(vd[0] for vd in verdicts))
+    rep.floor('bracket', 1, 'interp1d_linear_unchecked')
     # unchecked also asserts lengths
     key = 'checked:%s:len' % short(K)
     conds = [('bin', 'Eq', ('len', x), ('len', y), 'usize'), ('bin', 'Eq', ('len', y), ('len', x), 'usize')]
